@@ -1983,7 +1983,13 @@ func (f *formatter) ScalarEncapsedStringBrackets(n *ast.ScalarEncapsedStringBrac
 }
 
 func (f *formatter) ScalarHeredoc(n *ast.ScalarHeredoc) {
-	n.OpenHeredocTkn = f.newToken(token.T_START_HEREDOC, []byte("<<<EOT\n"))
+	open := []byte("<<<EOT\n")
+	if n.OpenHeredocTkn != nil && bytes.IndexByte(n.OpenHeredocTkn.Value, '\'') >= 0 {
+		// a nowdoc stays a nowdoc: its body is not interpolated
+		open = []byte("<<<'EOT'\n")
+	}
+
+	n.OpenHeredocTkn = f.newToken(token.T_START_HEREDOC, open)
 	for _, p := range n.Parts {
 		p.Accept(f)
 	}
